@@ -193,7 +193,7 @@ def enum_case(cid, kinds, typing, forward):
     variants, mkl, mkr = [], [], []
     for vi, k in enumerate(kinds):
         idx = VK[k]
-        tys = field_types(len(idx), "same" if typing == "same" else "distinct")
+        tys = field_types(len(idx), typing if typing in ("same", "generic") else "distinct")
         named = k.startswith("n")
         name = VN[vi]
         if k == "unit":
@@ -203,21 +203,25 @@ def enum_case(cid, kinds, typing, forward):
         else:
             variants.append(name + "(" + ", ".join(tys) + ")")
 
-    tyidx = lambda i: 0 if typing == "same" else i
+    tyidx = lambda i: 0 if typing in ("same", "generic") else i
+    # a generic enum: every field is `T`, the type's own where-clause and a lifetime parameter must be carried onto every impl
+    generic = typing == "generic"
+    GEN = "<T, const N: usize> where T: Clone"
+    EP = "EE::" if generic else "E::"
 
     def val(vi, k, base):
         idx = VK[k]
         named = k.startswith("n")
         if k == "unit":
-            return "E::%s" % VN[vi]
+            return EP + VN[vi]
         vals = ["lf::<%d>(%d)" % (tyidx(i), base + 10 * vi + i) for i in idx]
-        return "E::%s%s" % (VN[vi], mk(named, [GN[i] for i in idx], vals))
+        return "%s%s%s" % (EP, VN[vi], mk(named, [GN[i] for i in idx], vals))
 
     def expval(vi, k, f):
         idx = VK[k]
         named = k.startswith("n")
         vals = ["Tg::<%d>(%s)" % (tyidx(i), f(i)) for i in idx]
-        return "E::%s%s" % (VN[vi], mk(named, [GN[i] for i in idx], vals))
+        return "%s%s%s" % (EP, VN[vi], mk(named, [GN[i] for i in idx], vals))
 
     has_unit = "unit" in kinds
     lines = []
@@ -249,11 +253,13 @@ def enum_case(cid, kinds, typing, forward):
 #[derive(Clone, Debug, PartialEq, %s)]
 %s
 #[allow(non_camel_case_types, non_snake_case)]
-pub enum E { %s }
+pub enum E%s { %s }
+%s
 pub fn run(r: &mut R) {
     %s
-}""" % (", ".join("derive_more::" + d for d in derives), "\n".join(attrs), ", ".join(variants), "\n    ".join(lines))
-    src = "%s enum E { %s }" % (" ".join(attrs[:1]), ", ".join(variants))
+}""" % (", ".join("derive_more::" + d for d in derives), "\n".join(attrs),
+        GEN if generic else "", ", ".join(variants), "type EE = E<Tg<0>, 3>;" if generic else "", "\n    ".join(lines))
+    src = "%s enum E%s { %s }" % (" ".join(attrs[:1]), GEN if generic else "", ", ".join(variants))
     return Case(cid, mod, meta={"kind": "enum", "kinds": kinds, "typing": typing, "forward": forward, "src": src})
 
 
@@ -294,11 +300,14 @@ def run(chk, tier):
     vk = vk + ek
     if True:
         for kinds in combos:
-            for typing in ("same", "distinct"):
+            for typing in ("same", "distinct", "generic"):
+                if typing == "generic" and (not any(VK[k] for k in kinds) or (len(kinds) > 2 and "t3" not in kinds)):
+                    continue        # `T` must occur in a field; three-variant generic enums only with a three-field variant
                 for forward in (False, True):
                     cases.append(enum_case("e%d" % len(cases), list(kinds), typing, forward))
     chk.part("enums", variant_kinds=vk, max_variants=3 if thorough else 2, programs=len(cases) - e0,
-             pairs="every ordered pair of variant values per binary operator")
+             pairs="every ordered pair of variant values per binary operator",
+             typings=["same", "distinct", "generic `enum E<T, const N: usize> where T: Clone` (every field a T)"])
     eng = CompileEngine("C10", prelude=PRELUDE, per_bin=max(8, len(cases) // 16 + 1))
     results = eng.run_cases(cases)
     for c in cases:
